@@ -3,7 +3,10 @@
 Pre-steps for vlib.core.Check:
 
   facts_step(check, ctx)   tie A. Builds /verif/harness/cmd/owrunfacts (go/parser + go/ast, imports nothing from the tree),
-                           runs it on the CURRENT working tree (core.REPO, i.e. OW_REPO or /repo), rewrites
+                           runs it on the CURRENT working tree (core.REPO, i.e. OW_REPO or /repo) — the extractor knows the
+                           counted done-channel join and the sync.WaitGroup join, one goroutine per cell and a bounded worker
+                           pool over a channel of cell indices, and follows the closure's calls into named per-cell methods and
+                           per-cell view helpers of the module (see its header) —, rewrites
                            lean/OW/Gen/RunFacts.lean when its content changed (the theorems `OW.Gen.RunFacts.facts_ok` and
                            `OW.Props.C05.current_run_facts_ok` are then re-checked by the `lake build` of the check) and
                            reports every rule violation the extractor lists as a problem AND as an oracle failure with
@@ -80,7 +83,7 @@ def facts_step(check, ctx):
 
     sites = facts["sites"]
     for st in sites:   # a site the extractor could not analyse has null lists
-        for k in ("events", "closure_params", "call_args", "declared_inside", "captured", "callee_writes", "loop_vars"):
+        for k in ("events", "closure_params", "call_args", "declared_inside", "captured", "callee_writes", "loop_vars", "followed"):
             if st.get(k) is None:
                 st[k] = []
     by_kind = {}
@@ -97,6 +100,8 @@ def facts_step(check, ctx):
         "repo": facts["root"], "sites": len(sites), "by_kind": by_kind, "events": n_events,
         "wrapper_files_with_Run": facts["wrapper_files"], "template_variants": facts["template_variants"],
         "cell_dims": facts["cell_dims"], "violations": len(facts["violations"]), "extract_errors": facts["errors"],
+        "by_cover": _count(sites, "cover"), "by_join": _count(sites, "join"),
+        "followed_callees": sorted({f for s in sites for f in s["followed"]})[:40],
         "go_statements_in_tree": len(facts["go_stmts"]),
         "go_statements_not_analysed_here (C07)": ["%s:%d %s" % (g["file"], g["line"], g["func"]) for g in facts["go_stmts"] if not g["site"]],
         "callees_scanned": sum(s["callees_scanned"] for s in sites),
@@ -109,9 +114,10 @@ def facts_step(check, ctx):
         if s["kind"] == "cells" and len(ex) < 3 or s["kind"] == "models":
             w = [e for e in s["events"] if e["access"] == "call" and e["method"] in
                  ("Set", "Set1", "Set2", "Set3", "Apply", "Apply1", "ApplySlice", "CopyFrom")]
-            ex.append("runfacts %s %s: closure(%s) launched with (%s); declared inside %d, captured %s; %d events, writes: %s; "
-                      "%d send(s) on %s, tail=%s; launch %s %s, %d receive(s) per iteration up to %s; %d callees scanned, %d non-local writes"
-                      % (s["file"], s["func"], ",".join(s["closure_params"]), ",".join(s["call_args"]), len(s["declared_inside"]),
+            ex.append("runfacts %s %s [cover=%s join=%s followed=%s]: closure(%s) launched with (%s); declared inside %d, captured %s; %d events, writes: %s; "
+                      "%d send(s)/Done() on %s, tail=%s; launch %s %s, %d receive(s) per iteration / Wait() up to %s; %d callees scanned, %d non-local writes"
+                      % (s["file"], s["func"], s.get("cover"), s.get("join"), ",".join(s["followed"]) or "-",
+                         ",".join(s["closure_params"]), ",".join(s["call_args"]), len(s["declared_inside"]),
                          ",".join(s["captured"]), len(s["events"]),
                          "; ".join("%s.%s@%s(%s)" % (e["var"][:24], e["method"], e["root"], e["loc"]) for e in w) or "none",
                          s["sends"], s["chan"], s["send_tail"], s["launch_form"], s["launch_count"], s["recv_per_iter"], s["recv_bound"],
@@ -124,6 +130,13 @@ def facts_step(check, ctx):
         % (len(sites), ", ".join("%s=%d" % kv for kv in sorted(by_kind.items())), n_events, len(facts["violations"]),
            "rewritten" if old != src else "unchanged"))
     return problems
+
+
+def _count(sites, key):
+    out = {}
+    for s in sites:
+        out[str(s.get(key))] = out.get(str(s.get(key)), 0) + 1
+    return out
 
 
 def _probe_families(check, ctx):
